@@ -1,7 +1,528 @@
 import CalicoVerif.Model.C43
+import CalicoVerif.Proofs.C43
 /-!
 C43 — Cluster routes take the path their pool's encapsulation requires.
+
+Property theorems only (helper lemmas: `CalicoVerif.Proofs.C43`).
+
+* `route_kind_correct`        — resolver ∘ routeManager: for the route of a remote block (or a
+  borrowed address recorded in a block), whatever pools/blocks lie above it and whatever the node
+  table is, the manager of the pool's type keeps the route and programs it directly via the owning
+  node's address  ⇔  the pool is unencapsulated ∨ (some covering pool is cross-subnet ∧ the owner
+  is in the local node's subnet); otherwise the target is the pool's tunnel function.
+* `blackhole_never_covers_local_wep` — over ALL histories of the manager, a blackhole route never
+  has a /32 destination, and the route the resolver emits for a local workload's own address is
+  never classified as a local block.
+* `arrival_order_independent_partial` — what is proved of order independence (manager level +
+  purity of the resolver's per-CIDR computation); the history-level completeness of the resolver's
+  dirty marking is not proved (checked by the oracle on the real code);
+  `arrival_order_v4cidr_zero_fixed` is the regression witness of a defect the oracle found.
 -/
 namespace CalicoVerif.C43
+
+/-! ## route kinds -/
+
+/-- `updateRoutes`' choice for one route, spelled out: direct (no-encap target via `DstNodeIp`)
+exactly when the parent device is known, the manager is the no-encap one or the route says
+same-subnet, and the owner's address is known; otherwise whatever the tunnel function says. -/
+theorem targetOf_spec (m : RM) (r : RouteUpdate) :
+    (m.targetOf r = some (true, { cidr := r.dst, typ := .noEncap, gw := r.dstNodeIp }) ↔
+      (m.parent = true ∧ (m.pt = ptNoEncap ∨ r.sameSubnet = true) ∧ r.dstNodeIp ≠ 0)) ∧
+    (¬ (m.parent = true ∧ (m.pt = ptNoEncap ∨ r.sameSubnet = true) ∧ r.dstNodeIp ≠ 0) →
+      m.targetOf r = (m.tunnelRoute r).map (fun t => (false, t))) := by
+  unfold RM.targetOf RM.noEncapRoute
+  by_cases hp : m.parent = true
+  · by_cases hk : (m.pt != ptNoEncap && !r.sameSubnet) = true
+    · have hk' : ¬ (m.pt = ptNoEncap ∨ r.sameSubnet = true) := by
+        simp at hk; intro h; rcases h with h | h
+        · exact hk.1 h
+        · simp [hk.2] at h
+      simp only [hp, hk, Bool.not_true, Bool.false_eq_true, if_false, if_true]
+      constructor
+      · constructor
+        · intro h; cases hm : m.tunnelRoute r <;> simp [hm] at h
+        · intro h; exact absurd h.2.1 hk'
+      · intro _; first | rfl | trivial
+    · have hk' : (m.pt = ptNoEncap ∨ r.sameSubnet = true) := by
+        simp at hk
+        by_cases h1 : m.pt = ptNoEncap
+        · exact Or.inl h1
+        · exact Or.inr (hk h1)
+      by_cases hip : r.dstNodeIp = 0
+      · simp only [hp, hk, Bool.not_true, Bool.false_eq_true, if_false, hip, beq_self_eq_true, if_true]
+        constructor
+        · constructor
+          · intro h; cases hm : m.tunnelRoute r <;> simp [hm] at h
+          · intro h; exact absurd rfl h.2.2
+        · intro _; first | rfl | trivial
+      · have hip' : (r.dstNodeIp == 0) = false := by simp [hip]
+        simp only [hp, hk, Bool.not_true, Bool.false_eq_true, if_false, hip']
+        constructor
+        · constructor
+          · intro _; exact ⟨trivial, hk', hip⟩
+          · intro _; first | rfl | trivial
+        · intro h; exact absurd ⟨trivial, hk', hip⟩ h
+  · have hp' : m.parent = false := by simpa using hp
+    simp only [hp', Bool.not_false, if_true]
+    constructor
+    · constructor
+      · intro h; cases hm : m.tunnelRoute r <;> simp [hm] at h
+      · intro h; simp at h
+    · intro _; first | rfl | trivial
+
+/-- **route_kind_correct.**  `c` is a block (or borrowed address) recorded for the remote node `n`;
+`pre` are the trie entries above it (pools and blocks only — hosts, workloads and tunnel addresses
+are /32s and cannot be proper ancestors); `ni` is what the resolver knows about `n`.  The manager is
+the one of the pool type the resolver attributes to the route and knows its parent device.  Then
+(1) the manager keeps the route, (2) it is programmed as a no-encap route via the owner's address
+iff the pool is unencapsulated or (a covering pool is cross-subnet and the owner's address lies in
+the local node's subnet), and (3) otherwise the target is the manager's tunnel function applied to
+the owner: a VXLAN route via the owner's VTEP / an on-link IPIP route via the owner's host address
+(none for the no-encap manager), and never a direct route. -/
+theorem route_kind_correct (m : RM) (me : Nat) (nodes : List (Nat × NodeInfo)) (c : Cidr)
+    (pre : List (Cidr × RouteInfo)) (ri : RouteInfo) (n : Nat) (ni : NodeInfo)
+    (hpre : PlainAncestors pre) (hb : ri.block = some n) (hh : ri.hosts = []) (hr : ri.refs = [])
+    (hn : n ≠ me) (hnode : aget nodes n = some ni) (hip : ni.v4Addr ≠ 0)
+    (hparent : m.parent = true)
+    (hpt : (routeOfPath me nodes c (pre ++ [(c, ri)])).poolType = m.pt) :
+    let r := routeOfPath me nodes c (pre ++ [(c, ri)])
+    let direct := m.pt = ptNoEncap ∨ (pathCross (pre ++ [(c, ri)]) = true ∧ nodeInOurSubnet me nodes n = true)
+    aget (m.onRouteUpdate r).routes c = some r ∧
+    (m.targetOf r = some (true, { cidr := c, typ := .noEncap, gw := ni.v4Addr }) ↔ direct) ∧
+    (¬ direct → m.targetOf r = (m.tunnelRoute r).map (fun t => (false, t)) ∧
+      m.tunnelRoute r =
+        (if m.pt = ptVXLAN then (aget m.vteps n).map (fun a => { cidr := c, typ := .vxlan, gw := a })
+         else if m.pt = ptIPIP then (aget m.hostIPs n).map (fun a => { cidr := c, typ := .onLink, gw := a })
+         else none)) := by
+  intro r direct
+  obtain ⟨h1, h2, h3, _h4, h5, h6⟩ := routeOfPath_block me nodes c pre ri n hpre hb hh hr hn
+  simp only [hnode] at h5 h6
+  have hrw : isType r tRemoteWorkload = true := by
+    show (r.types &&& 1 == 1) = true
+    rcases h3 with h | h <;> (simp only [r]; rw [h]; decide)
+  have hnt : isType r tRemoteTunnel = false := by
+    show (r.types &&& 16 == 16) = false
+    rcases h3 with h | h <;> (simp only [r]; rw [h]; decide)
+  have hstores : stores m.pt r = true := by
+    simp [stores, hrw, show r.poolType = m.pt from hpt]
+  have hspec := targetOf_spec m r
+  have hss : r.sameSubnet = (pathCross (pre ++ [(c, ri)]) && nodeInOurSubnet me nodes n) := by
+    simpa using h6
+  have hdir : (m.parent = true ∧ (m.pt = ptNoEncap ∨ r.sameSubnet = true) ∧ r.dstNodeIp ≠ 0) ↔ direct := by
+    simp only [direct, hss, hparent, true_and, Bool.and_eq_true]
+    constructor
+    · intro h; exact h.1
+    · intro h; exact ⟨h, by rw [show r.dstNodeIp = ni.v4Addr from h5]; exact hip⟩
+  refine ⟨?_, ?_, ?_⟩
+  · have := (onRouteUpdate_spec m r c).2.1
+    rw [this, show r.dst = c from h1]
+    simp [storedOf, hstores]
+  · have e : ({ cidr := r.dst, typ := .noEncap, gw := r.dstNodeIp } : Target)
+        = { cidr := c, typ := .noEncap, gw := ni.v4Addr } := by
+      rw [show r.dst = c from h1, show r.dstNodeIp = ni.v4Addr from h5]
+    rw [← e]
+    exact hspec.1.trans hdir
+  · intro hnd
+    have hnd' := (not_congr hdir).2 hnd
+    refine ⟨hspec.2 hnd', ?_⟩
+    unfold RM.tunnelRoute
+    simp only [isRemoteTunnelRoute, isBorrowedRoute, hnt, Bool.and_false, Bool.false_and, Bool.or_self,
+      Bool.false_eq_true, if_false, show r.dstNode = some n from h2, show r.dst = c from h1]
+    by_cases hv : m.pt = ptVXLAN
+    · simp [hv]
+    · by_cases hi : m.pt = ptIPIP
+      · simp [hi, ptIPIP, ptVXLAN]
+      · simp [hv, hi]
+
+/-- non-vacuity: a remote /26 block of node 3 under a cross-subnet IPIP pool, owner 10.0.1.13 in the
+local node's 10.0.1.0/24: the IPIP manager programs it directly via 10.0.1.13. -/
+example :
+    let nodes : List (Nat × NodeInfo) :=
+      [(1, { v4Addr := 167772427, cidr := ⟨167772416, 24⟩, ipip := 0, vxlan := 0, wg := 0 }),
+       (3, { v4Addr := 167772429, cidr := ⟨167772416, 24⟩, ipip := 0, vxlan := 0, wg := 0 })]
+    let pre : List (Cidr × RouteInfo) := [(⟨3232235776, 24⟩, { pool := some ⟨ptIPIP, false, true⟩ })]
+    let m : RM := { pt := ptIPIP, me := 1, eth0Addr := 167772427, parent := true }
+    m.targetOf (routeOfPath 1 nodes ⟨3232235840, 26⟩ (pre ++ [(⟨3232235840, 26⟩, { block := some 3 })]))
+      = some (true, { cidr := ⟨3232235840, 26⟩, typ := .noEncap, gw := 167772429 }) := by decide
+
+/-- the pool type the resolver attributes to a route is that of the innermost pool on the path whose
+type is not NONE (and NONE when there is none). -/
+theorem routeOfPath_poolType (me : Nat) (nodes : List (Nat × NodeInfo)) (c : Cidr)
+    (path : List (Cidr × RouteInfo)) :
+    (routeOfPath me nodes c path).poolType =
+      (path.foldl (fun t e => match e.2.pool with
+        | some p => if p.typ != ptNone then p.typ else t
+        | none => t) ptNone) := by
+  unfold routeOfPath
+  simp only []
+  suffices ∀ a : Acc, (path.foldl (accStep me c) a).poolType =
+      path.foldl (fun t e => match e.2.pool with
+        | some p => if p.typ != ptNone then p.typ else t
+        | none => t) a.poolType from this {}
+  induction path with
+  | nil => intro a; rfl
+  | cons e path ih =>
+    intro a
+    simp only [List.foldl_cons]
+    rw [ih]
+    congr 1
+    have h4 : ∀ (a : Acc) (ri : RouteInfo), (accRefs me a ri).poolType = a.poolType := by
+      intro a ri; unfold accRefs
+      cases ri.refs with
+      | nil => rfl
+      | cons r0 rs =>
+        simp only []
+        split
+        · split <;> rfl
+        · rfl
+    have h3 : ∀ (a : Acc) (ri : RouteInfo), (accHost me a ri).poolType = a.poolType := by
+      intro a ri; unfold accHost
+      cases ri.hosts <;> rfl
+    have h2 := (accBlock_fields me c (accPool a e.2) e).2.2.2.2.1
+    simp only [accStep]
+    rw [h4, h3, h2]
+    unfold accPool
+    cases e.2.pool <;> rfl
+
+/-! ## blackholes -/
+
+/-- inputs of a manager over its lifetime. -/
+inductive MOp where
+  | ev (e : Event)
+  | vtep (n : Nat) (v : Option (Nat × Nat))
+  | hostMeta (n : Nat) (a : Option Nat)
+  | parent
+  | complete
+
+def RM.applyOp (m : RM) : MOp → RM
+  | .ev e => m.onEvent e
+  | .vtep n v => m.onVtep n v
+  | .hostMeta n a => m.onHostMeta n a
+  | .parent => m.onParent
+  | .complete => m.complete
+
+/-- no local block / blackhole target is an exact (/32) route, and none is a route flagged as a live
+local workload. -/
+def BHInv (m : RM) : Prop :=
+  (∀ e ∈ m.localBlocks, e.1.len ≠ 32 ∧ e.2.localWorkload = false) ∧
+  (∀ row ∈ m.table, ∀ t ∈ row.2, t.typ = .blackhole → t.cidr.len ≠ 32)
+
+theorem mem_aset {κ α} [BEq κ] (m : List (κ × α)) (k : κ) (v : α) (e : κ × α) (h : e ∈ aset m k v) :
+    e = (k, v) ∨ e ∈ m := by
+  induction m with
+  | nil => simp [aset] at h; exact Or.inl h
+  | cons p m ih =>
+    obtain ⟨k0, v0⟩ := p
+    simp only [aset] at h
+    split at h
+    · rcases List.mem_cons.1 h with h | h
+      · exact Or.inl h
+      · exact Or.inr (List.mem_cons_of_mem _ h)
+    · rcases List.mem_cons.1 h with h | h
+      · exact Or.inr (h ▸ List.mem_cons_self)
+      · rcases ih h with h | h
+        · exact Or.inl h
+        · exact Or.inr (List.mem_cons_of_mem _ h)
+
+theorem mem_adel {κ α} [BEq κ] (m : List (κ × α)) (k : κ) (e : κ × α) (h : e ∈ adel m k) : e ∈ m :=
+  (List.mem_filter.1 h).1
+
+theorem bh_deleteRoute (m : RM) (d : Cidr) (h : BHInv m) : BHInv (m.deleteRoute d) := by
+  unfold RM.deleteRoute
+  simp only []
+  refine ⟨?_, ?_⟩
+  · intro e he
+    apply h.1
+    split at he <;> split at he <;> first | exact mem_adel _ _ _ he | exact he
+  · split <;> split <;> exact h.2
+
+theorem bh_onRouteUpdate (m : RM) (r : RouteUpdate) (h : BHInv m) : BHInv (m.onRouteUpdate r) := by
+  have h1 := bh_deleteRoute m r.dst h
+  unfold RM.onRouteUpdate
+  simp only []
+  generalize m.deleteRoute r.dst = m1 at h1
+  have h2 : BHInv (if ((isType r tRemoteWorkload && r.poolType == m1.pt) || isRemoteTunnelRoute r m1.pt
+      || isBorrowedRoute r m1.pt) = true then { m1 with routes := aset m1.routes r.dst r, dirty := true } else m1) := by
+    split
+    · exact ⟨h1.1, h1.2⟩
+    · exact h1
+  generalize (if ((isType r tRemoteWorkload && r.poolType == m1.pt) || isRemoteTunnelRoute r m1.pt
+      || isBorrowedRoute r m1.pt) = true then { m1 with routes := aset m1.routes r.dst r, dirty := true } else m1) = m2 at h2
+  split
+  · rename_i hlb
+    refine ⟨?_, h2.2⟩
+    intro e he
+    rcases mem_aset _ _ _ _ he with he | he
+    · subst he
+      simp only [routeIsLocalBlock, Bool.and_eq_true, bne_iff_ne, ne_eq, Bool.not_eq_true'] at hlb
+      exact ⟨hlb.2, hlb.1.2⟩
+    · exact h2.1 e he
+  · split
+    · refine ⟨?_, h2.2⟩
+      intro e he
+      exact h2.1 e (mem_adel _ _ _ he)
+    · exact h2
+
+theorem targetOf_not_blackhole (m : RM) (r : RouteUpdate) (b : Bool) (t : Target)
+    (h : m.targetOf r = some (b, t)) : t.typ ≠ .blackhole := by
+  unfold RM.targetOf at h
+  cases hn : m.noEncapRoute r with
+  | some t' =>
+    simp only [hn] at h
+    unfold RM.noEncapRoute at hn
+    split at hn; · simp at hn
+    split at hn; · simp at hn
+    split at hn; · simp at hn
+    simp at hn h
+    rw [← h.2, ← hn]; simp
+  | none =>
+    simp only [hn] at h
+    cases ht : m.tunnelRoute r with
+    | none => simp [ht] at h
+    | some t' =>
+      simp only [ht, Option.map] at h
+      have : t' = t := by simpa using (Option.some.inj h ▸ rfl : (false, t').2 = (b, t).2)
+      subst this
+      unfold RM.tunnelRoute at ht
+      split at ht
+      · split at ht
+        · simp at ht; rw [← ht]; simp
+        · split at ht
+          · simp at ht
+          · simp at ht
+            obtain ⟨a, _, rfl⟩ := ht
+            simp
+      · split at ht
+        · split at ht
+          · simp at ht
+          · simp at ht
+            obtain ⟨a, _, rfl⟩ := ht
+            simp
+        · simp at ht
+
+theorem bh_setRoutes (m : RM) (cls ifc : Nat) (ts : List Target) (h : BHInv m)
+    (hts : ∀ t ∈ ts, t.typ = .blackhole → t.cidr.len ≠ 32) : BHInv (m.setRoutes cls ifc ts) := by
+  refine ⟨h.1, ?_⟩
+  intro row hrow
+  rcases mem_aset _ _ _ _ hrow with hr | hr
+  · subst hr; exact hts
+  · exact h.2 row hr
+
+theorem bh_updateRoutes (m : RM) (h : BHInv m) : BHInv m.updateRoutes := by
+  unfold RM.updateRoutes
+  simp only []
+  have hnb : ∀ (p : Bool → Bool) (t : Target),
+      t ∈ ((m.routes.filterMap (fun e => m.targetOf e.2)).filter (fun t => p t.1)).map (·.2) →
+      t.typ = .blackhole → t.cidr.len ≠ 32 := by
+    intro p t ht hbh
+    obtain ⟨bt, hbt, rfl⟩ := List.mem_map.1 ht
+    have hbt' := (List.mem_filter.1 hbt).1
+    obtain ⟨e, _, he⟩ := List.mem_filterMap.1 hbt'
+    exact absurd hbh (targetOf_not_blackhole m e.2 bt.1 bt.2 he)
+  have hbhl : ∀ t ∈ m.localBlocks.map (fun e => ({ cidr := e.1, typ := .blackhole } : Target)),
+      t.typ = .blackhole → t.cidr.len ≠ 32 := by
+    intro t ht _
+    obtain ⟨e, he, rfl⟩ := List.mem_map.1 ht
+    exact (h.1 e he).1
+  have s1 := bh_setRoutes m m.classTunnel m.tunnelIface _ h (hnb (fun b => !b))
+  have s2 := bh_setRoutes _ (m.setRoutes m.classTunnel m.tunnelIface
+      (((m.routes.filterMap (fun e => m.targetOf e.2)).filter (fun t => !t.1)).map (·.2))).classBlackhole ifNone
+      (m.localBlocks.map (fun e => ({ cidr := e.1, typ := .blackhole } : Target))) s1 hbhl
+  split
+  · exact bh_setRoutes _ _ ifParent _ s2 (hnb (fun b => b))
+  · exact s2
+
+theorem bh_complete (m : RM) (h : BHInv m) : BHInv m.complete := by
+  unfold RM.complete
+  simp only []
+  have h1 : BHInv (if (!m.parent && m.parentAddr != 0 && m.parentAddr == m.eth0Addr) = true
+      then { m with parent := true, dirty := true } else m) := by
+    split
+    · exact ⟨h.1, h.2⟩
+    · exact h
+  generalize (if (!m.parent && m.parentAddr != 0 && m.parentAddr == m.eth0Addr) = true
+      then { m with parent := true, dirty := true } else m) = m1 at h1
+  split
+  · have := bh_updateRoutes m1 h1
+    exact ⟨this.1, this.2⟩
+  · exact h1
+
+theorem bh_applyOp (m : RM) (op : MOp) (h : BHInv m) : BHInv (m.applyOp op) := by
+  cases op with
+  | ev e =>
+    cases e with
+    | update r => exact bh_onRouteUpdate m r h
+    | remove d => exact bh_deleteRoute m d h
+  | vtep n v =>
+    simp only [RM.applyOp, RM.onVtep]
+    split
+    · exact h
+    · split
+      · split
+        · exact h
+        · split <;> exact ⟨h.1, h.2⟩
+      · split <;> exact ⟨h.1, h.2⟩
+  | hostMeta n a =>
+    simp only [RM.applyOp, RM.onHostMeta]
+    split
+    · split
+      · split <;> split <;> exact ⟨h.1, h.2⟩
+      · split <;> exact ⟨h.1, h.2⟩
+    · split
+      · split
+        · split <;> exact ⟨h.1, h.2⟩
+        · exact h
+      · exact h
+  | parent =>
+    simp only [RM.applyOp, RM.onParent]
+    split
+    · exact h
+    · exact ⟨h.1, h.2⟩
+  | complete => exact bh_complete m h
+
+/-- **blackhole_never_covers_local_wep (manager side).**  After ANY history of route updates /
+removals, VTEP and host-metadata updates, parent-device changes and applies, starting from a
+freshly created manager, no blackhole route in the route table (and no entry of
+`localIPAMBlocks`) has a /32 destination — so a blackhole can never take the place of (or win the
+longest-prefix match against) the /32 route of a local workload's own address — and no entry of
+`localIPAMBlocks` is a route flagged `LocalWorkload`. -/
+theorem blackhole_never_covers_local_wep (pt me eth : Nat) (ops : List MOp) :
+    BHInv (ops.foldl RM.applyOp { pt := pt, me := me, eth0Addr := eth }) := by
+  suffices ∀ m, BHInv m → BHInv (ops.foldl RM.applyOp m) from
+    this _ ⟨by intro e he; simp at he, by intro r hr; simp at hr⟩
+  induction ops with
+  | nil => intro m h; exact h
+  | cons op ops ih => intro m h; exact ih _ (bh_applyOp m op h)
+
+/-- **blackhole_never_covers_local_wep (resolver side).**  The route the resolver emits for an
+address that carries a live local workload (first ref at the CIDR is a WEP ref of the local node)
+has `LocalWorkload` set, whatever lies above it, so the manager never classifies it as a local
+block (no blackhole), for any pool type. -/
+theorem local_wep_route_not_local_block (me : Nat) (nodes : List (Nat × NodeInfo)) (c : Cidr)
+    (pre : List (Cidr × RouteInfo)) (ri : RouteInfo) (r0 : Ref) (rest : List Ref) (pt : Nat)
+    (hrefs : ri.refs = r0 :: rest) (hw : r0.typ = refWEP) (hme : r0.node = me) :
+    (routeOfPath me nodes c (pre ++ [(c, ri)])).localWorkload = true ∧
+    routeIsLocalBlock pt (routeOfPath me nodes c (pre ++ [(c, ri)])) = false := by
+  have hlw : (routeOfPath me nodes c (pre ++ [(c, ri)])).localWorkload = true := by
+    unfold routeOfPath
+    simp only [List.foldl_append, List.foldl_cons, List.foldl_nil]
+    simp [accStep, accRefs, hrefs, hw, hme]
+  exact ⟨hlw, by simp [routeIsLocalBlock, hlw]⟩
+
+/-- non-vacuity: a local /26 block is blackholed, the /32 of a local workload inside it is not. -/
+example :
+    let m0 : RM := { pt := ptIPIP, me := 1, eth0Addr := 167772427 }
+    let blk : RouteUpdate := { dst := ⟨3232235840, 26⟩, types := tLocalWorkload, poolType := ptIPIP, dstNode := some 1 }
+    let wep : RouteUpdate := { dst := ⟨3232235843, 32⟩, types := tLocalWorkload, poolType := ptIPIP, dstNode := some 1, localWorkload := true }
+    ([MOp.ev (.update blk), MOp.ev (.update wep), MOp.complete].foldl RM.applyOp m0).table
+      = [((6, 2), []), ((9, 3), [{ cidr := ⟨3232235840, 26⟩, typ := .blackhole }])] := by decide
+
+/-! ## arrival order -/
+
+theorem agree_onEvent (m : RM) (sent : List (Cidr × RouteUpdate)) (e : Event) (h : Agree m sent) :
+    Agree (m.onEvent e) (applyEvents sent [e]) := by
+  intro d
+  cases e with
+  | update r =>
+    have hs := onRouteUpdate_spec m r d
+    simp only [RM.onEvent, applyEvents, List.foldl_cons, List.foldl_nil]
+    rw [hs.1, hs.2.1, hs.2.2, aget_aset]
+    by_cases hd : r.dst = d
+    · simp [hd]
+    · simp only [hd, if_false]; exact h d
+  | remove d0 =>
+    have hs := deleteRoute_spec m d0 d
+    simp only [RM.onEvent, applyEvents, List.foldl_cons, List.foldl_nil]
+    rw [hs.1, hs.2.1, hs.2.2, aget_adel]
+    by_cases hd : d0 = d
+    · simp [hd]
+    · simp only [hd, if_false]; exact h d
+
+theorem applyEvents_cons (sent : List (Cidr × RouteUpdate)) (e : Event) (evs : List Event) :
+    applyEvents sent (e :: evs) = applyEvents (applyEvents sent [e]) evs := by
+  simp [applyEvents]
+
+theorem agree_fold (evs : List Event) (m : RM) (sent : List (Cidr × RouteUpdate)) (h : Agree m sent) :
+    Agree (evs.foldl RM.onEvent m) (applyEvents sent evs) := by
+  induction evs generalizing m sent with
+  | nil => exact h
+  | cons e evs ih =>
+    rw [applyEvents_cons]
+    exact ih _ _ (agree_onEvent m sent e h)
+
+/-- **arrival_order_independent — what is proved.**
+(a) routeManager: after ANY two sequences of route updates/removals that leave the downstream map
+(dst ↦ last RouteUpdate) the same, a fresh manager holds the same `routesByDest` and
+`localIPAMBlocks` entry for every destination — namely the last update for that destination, kept
+iff `stores` / `routeIsLocalBlock` says so — and `updateRoutes` maps each stored route through the
+pure function `targetOf`; so the programmed kinds do not depend on the order in which the
+resolver's messages arrived.
+(b) resolver: whatever `step` (re)sends for a CIDR is `routeOfPath` of the CURRENT trie path and node
+table (definitional in the model, tied to the code by the correspondence), and the pool type / the
+same-subnet flag / the owner are the functions of the path given by `routeOfPath_poolType` and
+`routeOfPath_block`.
+NOT proved: that the resolver's dirty marking re-sends every CIDR whose `routeOfPath` changed (an
+inductive invariant over all update histories of the full resolver state machine).  Two violations
+of it were found by the harness oracle and repaired in the repo (commits 5f87955, 7bc5b47; see
+`arrival_order_v4cidr_zero_fixed`); the oracle (fresh instance fed the final state, two orders)
+checks it on the real code on every run. -/
+theorem arrival_order_independent_partial (pt me eth : Nat) (evs1 evs2 : List Event)
+    (hsame : ∀ d, aget (applyEvents [] evs1) d = aget (applyEvents [] evs2) d) (d : Cidr) :
+    let m1 := evs1.foldl RM.onEvent { pt := pt, me := me, eth0Addr := eth }
+    let m2 := evs2.foldl RM.onEvent { pt := pt, me := me, eth0Addr := eth }
+    aget m1.routes d = aget m2.routes d ∧ aget m1.localBlocks d = aget m2.localBlocks d ∧
+    aget m1.routes d = (aget (applyEvents [] evs1) d).bind (storedOf pt) ∧
+    aget m1.localBlocks d = (aget (applyEvents [] evs1) d).bind (blockOf pt) := by
+  intro m1 m2
+  have h0 : Agree ({ pt := pt, me := me, eth0Addr := eth } : RM) [] := by
+    intro d; simp [aget]
+  have a1 := agree_fold evs1 _ _ h0 d
+  have a2 := agree_fold evs2 _ _ h0 d
+  have hpt : ∀ evs : List Event, (evs.foldl RM.onEvent ({ pt := pt, me := me, eth0Addr := eth } : RM)).pt = pt := by
+    intro evs
+    suffices ∀ m : RM, (evs.foldl RM.onEvent m).pt = m.pt from this _
+    induction evs with
+    | nil => intro m; rfl
+    | cons e evs ih =>
+      intro m
+      simp only [List.foldl_cons]
+      rw [ih]
+      cases e with
+      | update r => exact (onRouteUpdate_spec m r d).1
+      | remove d0 => exact (deleteRoute_spec m d0 d).1
+  simp only [hpt] at a1 a2
+  refine ⟨?_, ?_, a1.1, a1.2⟩
+  · show aget m1.routes d = aget m2.routes d
+    rw [a1.1, a2.1, hsame d]
+  · show aget m1.localBlocks d = aget m2.localBlocks d
+    rw [a1.2, a2.2, hsame d]
+
+/-! ### regression witness of a repaired defect -/
+
+/-- node 3 = 10.0.1.13/24, local node 1 = 10.0.1.11/24 (or v6-only: no IPv4 address/CIDR). -/
+def wNode3 : Op := .node 3 (some { v4Addr := 167772429, cidr := ⟨167772416, 24⟩, ipip := 0, vxlan := 0, wg := 0 })
+def wNode1v6 : Op := .node 1 (some { v4Addr := 0, cidr := ⟨0, 0⟩, ipip := 0, vxlan := 0, wg := 0 })
+def wNode1v4 : Op := .node 1 (some { v4Addr := 167772427, cidr := ⟨167772416, 24⟩, ipip := 0, vxlan := 0, wg := 0 })
+/-- 192.168.1.0/24, IPIP cross-subnet. -/
+def wPool : Op := .pool ⟨3232235776, 24⟩ (some (poolOf 2 0 false false))
+/-- 192.168.1.64/26 affine to node 3. -/
+def wBlock : Op := .block ⟨3232235840, 26⟩ (some 3) []
+
+/-- the two histories end in the same datastore state (the v6-only version of the local node is
+overwritten by the dual-stack one). -/
+def wHistory : List Op := [wPool, wBlock, wNode3, wNode1v6, wNode1v4]
+def wFresh : List Op := [wPool, wBlock, wNode3, wNode1v4]
+
+/-- Regression witness for the defect repaired by repo commit 7bc5b47 (oracle signature
+`order-dep-local-v4cidr-zero`, replay corpus/C43/local-v4cidr-zero.ops): the local node is first
+known without an IPv4 CIDR and then gains 10.0.1.11/24.  Before the repair `onNodeUpdate` compared
+"was/is same subnet" with `ContainsV4` on the zero CIDR (which contains every address), saw no flip
+and left the remote block's route with `SameSubnet = false`; with the zero-CIDR guard both the
+history and the fresh resolver send `SameSubnet = true`. -/
+theorem arrival_order_v4cidr_zero_fixed :
+    let blk : Cidr := ⟨3232235840, 26⟩
+    ((aget ((St.run { me := 1 } [] wHistory).2) blk).map (·.sameSubnet) = some true) ∧
+    ((aget ((St.run { me := 1 } [] wFresh).2) blk).map (·.sameSubnet) = some true) := by
+  decide
 
 end CalicoVerif.C43
